@@ -83,7 +83,7 @@ def pty_sessions(ctx):
         missing = [k for k in required if not meta.get(k, 0)]
         # same for the queue histories: drops that find the front chunk partly consumed, big chunks drained in pieces
         try:
-            dist = json.load(open(os.path.join(ctx["build"], "cases", "C16", "meta.json"))).get("distribution", {})
+            dist = json.load(open(os.path.join(ctx.get("case_dir") or os.path.join(ctx["build"], "cases", "C16"), "meta.json"))).get("distribution", {})
             for tag in ("drop_with_front_partly_consumed=true", "big.partial_takes_in_chunk_over_64K=>=10", "max_chunks=>32"):
                 cov["queue_" + tag] = dist.get(tag, 0)
                 if not dist.get(tag, 0):
